@@ -364,13 +364,28 @@ def rule_r3(ctx) -> List[R.Inst]:
                                 f"groups[i:i+{size}] for every i from 0 to len-{size}", construct=unparse(zl[0].iter) + " ; " + "; ".join(unparse(c) for c in chunk)))
     if not decided:
         # accepted twin: for i in range(len(groups) - size + 1): chunk = groups[i:i + size]
-        fl = [n for n in walk_no_nested(fn.node) if isinstance(n, ast.For) and isinstance(n.iter, ast.Call) and call_name(n.iter) == "range"]
+        def _start_range(it):
+            """the range the chunk starts run over: range(..) itself, or a local bound to range(..) and then only narrowed by
+            `name = [v for v in name if <test>]` (a filter keeps starts, it cannot add or move one)"""
+            if isinstance(it, ast.Call) and call_name(it) == "range" and len(it.args) == 1:
+                return it
+            if isinstance(it, ast.Name):
+                ds = local_defs(fn.node, it.id)
+                rng = [d for d in ds if isinstance(d, ast.Call) and call_name(d) == "range" and len(d.args) == 1]
+                rest = [d for d in ds if d not in rng]
+                if len(rng) == 1 and all(isinstance(d, (ast.ListComp, ast.GeneratorExp)) and len(d.generators) == 1 and
+                                         isinstance(d.generators[0].target, ast.Name) and isinstance(d.elt, ast.Name) and
+                                         d.elt.id == d.generators[0].target.id and isinstance(d.generators[0].iter, ast.Name) and
+                                         d.generators[0].iter.id == it.id for d in rest):
+                    return rng[0]
+            return None
+        fl = [(n, _start_range(n.iter)) for n in walk_no_nested(fn.node) if isinstance(n, ast.For) and _start_range(n.iter) is not None]
         ok_ = False
-        for f in fl:
+        for f, rng_ in fl:
             if isinstance(f.target, ast.Name) and len(chunk) == 1 and isinstance(chunk[0], ast.Subscript) and isinstance(chunk[0].slice, ast.Slice):
                 i = f.target.id
                 lf = lambda n: ("N" if unparse(n) == "len(self.groups)" else None)   # noqa: E731
-                stop = sym.canon(f.iter.args[-1], lf)
+                stop = sym.canon(rng_.args[-1], lf)
                 lo, hi = chunk[0].slice.lower, chunk[0].slice.upper
                 if lo is not None and hi is not None and (sym.canon(hi) - sym.canon(lo)).same(sym.parse(size)) and \
                         stop.same(sym.parse(f"N - {size} + 1")) and unparse(lo) == i:
@@ -381,9 +396,9 @@ def rule_r3(ctx) -> List[R.Inst]:
                     # the same shape with another bound: the chunks are groups[i:i+size] but not for every i in 0..n-size
                     ok_ = True
                     insts.append(R.viol(rid, "consecutive-chunks", file, f.lineno,
-                                        f"chunks are groups[{i}:{i}+{size}] for {i} in range({unparse(f.iter.args[-1])}); they must start at every index "
+                                        f"chunks are groups[{i}:{i}+{size}] for {i} in range({unparse(rng_.args[-1])}); they must start at every index "
                                         f"0 .. len(groups) - {size}: the last start is len - {size}, so the range ends at len - {size} + 1",
-                                        construct=f"range({unparse(f.iter.args[-1])})"))
+                                        construct=f"range({unparse(rng_.args[-1])})"))
         if not ok_:
             insts.append(R.undec(rid, "consecutive-chunks", file, fn.node.lineno, "chunk enumeration not recognised"))
     # all combinations of a chunk: meshgrid over the groups of the chunk, reshaped to (-1, size)
